@@ -44,6 +44,8 @@ THEOREMS = [
     "Optyx.Props.StateTie.rejected_list_changes_nothing_of_source_equations",
     "Optyx.Props.VarsTie.svsVisit_eq",
     "Optyx.Props.VarsTie.svsFrame_text",
+    "Optyx.Props.VarsTie.shortcutSource_eq",
+    "Optyx.Props.VarsTie.generalPath_text",
     "Optyx.Props.PinsC13.anchors",
 ]
 ASSUMPTIONS = [
